@@ -861,10 +861,16 @@ impl Template {
                     }
 
                     Rule::raw_block_text => {
+                        // leading space fix
+                        let start = if span.start() != prev_end {
+                            prev_end
+                        } else {
+                            span.start()
+                        };
                         let mut t = Template::new();
                         t.push_element(
                             Template::raw_string(
-                                span.as_str(),
+                                &source[start..span.end()],
                                 Some(pair.clone()),
                                 omit_pro_ws,
                                 trim_line_required,
